@@ -433,8 +433,7 @@ int __printf(void (*printchar_handler)(void *d, int c),
         else
         {
             width = atoi(format);
-            char c = *format;
-            while (isdigit(c))
+            while (isdigit(*format))
                 ++format;
         }
         width = MAX(width, 0);
@@ -449,8 +448,7 @@ int __printf(void (*printchar_handler)(void *d, int c),
         else
         {
             precision = atoi(format);
-            char c = *format;
-            while (isdigit(c))
+            while (isdigit(*format))
                 ++format;
         }
         precision = precision >= 0 ? precision : (ops &= ~OPS_PREC_IS_GIVEN, 0);
